@@ -84,7 +84,7 @@ func (c12) Budget(tier string) runner.Budget {
 
 func (c12) Describe() runner.Description {
 	return runner.Description{
-		Rule:        "call-tree plans (85%): a seeded tree of 2..14 frames (depth <=5), each a deployed contract with effects (SSTORE of a per-frame slot, LOG1, 1-wei transfer to a sink, CREATE of a 1-byte contract), children called by CALL / CALLCODE / DELEGATECALL / STATICCALL with full or limited gas, and an ending (RETURN, REVERT, INVALID, infinite loop, stack fault); the root gas limit is ample or starved at a seeded point. Every successful frame returns the bitmap of frames of its subtree whose effects must persist; the transaction runs through the real block executor. Oracle: final storage of every frame slot, the ordered receipt logs, sink and contract balances, contract nonces and the set of created accounts equal exactly the effects of the frames in the returned bitmap (failed frames and their subtrees contribute nothing); no frame inside a STATICCALL subtree that has effects may report success and nothing from such a subtree may persist; a failed root leaves the whole state as before except fee/nonce of the sender. Failed-creation plans (8%): a contract runs an inner CREATE (40%: CREATE2) whose init code stores, logs and optionally pays out of its endowment and then ends by returning 1 byte / 200000 bytes (code deposit unpayable at the lower gas limits) / 250000 bytes (over the size limit) / REVERT / INVALID; the creator records what CREATE pushed; if it reported failure no account, storage, balance or log of the creation frame may remain and the endowment is back with the creator. Stake-opcode plans (5%): a contract that is the account of a registered miner executes the node's STAKE / UNSTAKE / UNSTAKEALL opcode inside a STATICCALL (25%: plain CALL as control); its balance and the miner record must be unchanged afterwards; or a contract AUTHs itself with an externally owned account's signature and AUTHCALLs a sink with value inside a STATICCALL: the account's nonce and the sink's balance must be unchanged. Cross-transaction plans (15%): 2-4 identical-shaped transactions in one block, each TLOADs a slot, records it, TSTOREs, touches storage and logs: every transaction must read transient storage empty, pay the same gas (no warm access list inherited), and its receipt must carry exactly its own log; in half of them the transactions only warm ADDRESSES (account-access opcodes, an inner CREATE, a deployment transaction) and every probe transaction not first in the block must use exactly the gas it uses alone in a block on the same parent state. distinct_nontrivial = distinct tree shapes (kinds, endings, effects, gas shares) with at least one failing inner frame.",
+		Rule:        "call-tree plans (85%): a seeded tree of 2..14 frames (depth <=5), each a deployed contract with effects (SSTORE of a per-frame slot, SSTORE / clearing of a slot shared by the storage context and committed non-empty beforehand, LOG1, 1-wei transfer to a sink, transfer of the whole balance to the sink (balance exactly 0), 1-wei payment to the root contract, CREATE of a 1-byte contract), children called by CALL / CALLCODE / DELEGATECALL / STATICCALL with full or limited gas, and an ending (RETURN, REVERT, INVALID, infinite loop, stack fault); the root gas limit is ample or starved at a seeded point. Every successful frame returns the bitmap of frames of its subtree whose effects must persist; the transaction runs through the real block executor. Oracle: final storage of every frame slot, the ordered receipt logs, sink and contract balances, contract nonces and the set of created accounts equal exactly the effects of the frames in the returned bitmap (failed frames and their subtrees contribute nothing); no frame inside a STATICCALL subtree that has effects may report success and nothing from such a subtree may persist; a failed root leaves the whole state as before except fee/nonce of the sender. Failed-creation plans (8%): a contract runs an inner CREATE (40%: CREATE2) whose init code stores, logs and optionally pays out of its endowment and then ends by returning 1 byte / 200000 bytes (code deposit unpayable at the lower gas limits) / 250000 bytes (over the size limit) / REVERT / INVALID; the creator records what CREATE pushed; if it reported failure no account, storage, balance or log of the creation frame may remain and the endowment is back with the creator. Stake-opcode plans (5%): a contract that is the account of a registered miner executes the node's STAKE / UNSTAKE / UNSTAKEALL opcode inside a STATICCALL (25%: plain CALL as control); its balance and the miner record must be unchanged afterwards; or a contract AUTHs itself with an externally owned account's signature and AUTHCALLs a sink with value inside a STATICCALL: the account's nonce and the sink's balance must be unchanged. Cross-transaction plans (15%): 2-4 identical-shaped transactions in one block, each TLOADs a slot, records it, TSTOREs, touches storage and logs: every transaction must read transient storage empty, pay the same gas (no warm access list inherited), and its receipt must carry exactly its own log; in half of them the transactions only warm ADDRESSES (account-access opcodes, an inner CREATE, a deployment transaction) and every probe transaction not first in the block must use exactly the gas it uses alone in a block on the same parent state. distinct_nontrivial = distinct tree shapes (kinds, endings, effects, gas shares) with at least one failing inner frame.",
 		Assumptions: []string{"frame effects use per-frame slots/topics so that every observed value is attributable to one frame", "SELFDESTRUCT only as the ending of a CALL-kind frame (its own contract), beneficiary a sink account"},
 		Real:        []string{"vm (EVM call/create/static handling, interpreter, gas)", "executor contract executor", "core/vmexecutor (Prepare, snapshot/revert, receipts)", "storage/account (journal, access list, transient storage, logs)"},
 		Stub:        []string{"ConsensusHelper", "network"},
@@ -144,7 +144,7 @@ func (c12) Gen(seed uint64, tier string) json.RawMessage {
 		f := &p.Frames[i]
 		ne := r.Range(0, 3)
 		for j := 0; j < ne; j++ {
-			f.Effects = append(f.Effects, []string{"sstore", "log", "pay", "create", "sstore", "log"}[r.Intn(6)])
+			f.Effects = append(f.Effects, []string{"sstore", "log", "pay", "create", "sstore", "log", "gset", "gclear", "drain", "feed"}[r.Intn(10)])
 		}
 		f.End = "return"
 		if i > 0 && r.Chance(0.4) {
@@ -183,16 +183,27 @@ var c12Init = []byte{0x60, 0x00, 0x60, 0x00, 0x53, 0x60, 0x01, 0x60, 0x00, 0xf3}
 func c12Code(p *c12Plan, i int) []byte {
 	f := p.Frames[i]
 	var c evmasm.Code
+	// a call that carries value is a "feed" payment, not a frame of the tree: accept it and stop
+	// (CALLVALUE ISZERO PUSH1 6 JUMPI STOP JUMPDEST)
+	c.Op(0x34, 0x15, 0x60, 0x06, 0x57, 0x00, 0x5b)
 	own := new(big.Int).Lsh(big.NewInt(1), uint(i))
 	c.PushBytes(own.Bytes()).Push(0).Op(evmasm.MSTORE)
 	for k, e := range f.Effects {
 		switch e {
 		case "sstore":
 			c.Sstore(uint64(1000+i), uint64(i+1))
+		case "gset": // a slot every frame of the same storage context shares, committed non-empty at deployment
+			c.Sstore(900, uint64(i+1))
+		case "gclear":
+			c.Sstore(900, 0)
 		case "log":
 			c.Push(uint64(i*10 + k)).Push(0x20).Op(evmasm.MSTORE).Push(uint64(i)).Push(32).Push(0x20).Op(evmasm.LOG1)
 		case "pay":
 			c.Push(0).Push(0).Push(0).Push(0).Push(1).PushBytes(c12Sink.Bytes()).Op(evmasm.GAS, evmasm.CALL, evmasm.POP)
+		case "drain": // everything the executing contract holds goes to the sink: its balance becomes exactly 0
+			c.Push(0).Push(0).Push(0).Push(0).Op(evmasm.SELFBALANCE).PushBytes(c12Sink.Bytes()).Op(evmasm.GAS, evmasm.CALL, evmasm.POP)
+		case "feed": // 1 wei to the root contract
+			c.Push(0).Push(0).Push(0).Push(0).Push(1).PushBytes(c12Addr(0).Bytes()).Op(evmasm.GAS, evmasm.CALL, evmasm.POP)
 		case "create":
 			c.PushBytes(c12Init).Push(0x60).Op(evmasm.MSTORE).Push(10).Push(0x60+22).Push(0).Op(evmasm.CREATE, evmasm.POP)
 		}
@@ -274,6 +285,7 @@ func (c12) Exec(raw json.RawMessage, st *simrt.Stats, log *simrt.Log) *simrt.Vio
 		s0.SetCode(a, c12Code(&p, i))
 		s0.SetNonce(a, 1)
 		s0.AddBalance(a, big.NewInt(1000))
+		s0.SetState(a, common.BigToHash(big.NewInt(900)), common.BigToHash(big.NewInt(0x55)))
 	}
 	root, err := s0.Commit(true)
 	if err == nil {
@@ -395,6 +407,13 @@ func (c12) Exec(raw json.RawMessage, st *simrt.Stats, log *simrt.Log) *simrt.Vio
 	creates := map[int]int{}
 	attempts := map[int]int{}
 	sinkGain := int64(0)
+	// balances: the value-moving effects of the persisted frames, replayed in execution order (a frame's
+	// effects run before its children are called; a transfer the sender cannot afford simply fails)
+	bal := make([]int64, nf)
+	for a := range bal {
+		bal[a] = 1000
+	}
+	destroyed := map[int]bool{}
 	for _, i := range order {
 		f := p.Frames[i]
 		if !persisted[i] || static[i] {
@@ -405,21 +424,33 @@ func (c12) Exec(raw json.RawMessage, st *simrt.Stats, log *simrt.Log) *simrt.Vio
 			case "log":
 				wantLogs = append(wantLogs, fmt.Sprintf("%x|%d|%d", c12Addr(ctx[i]).Bytes(), i, i*10+k))
 			case "pay":
-				pays[ctx[i]]++
-				sinkGain++
+				if bal[ctx[i]] >= 1 {
+					bal[ctx[i]]--
+					sinkGain++
+				}
+			case "feed":
+				if bal[ctx[i]] >= 1 {
+					bal[ctx[i]]--
+					bal[0]++
+				}
+			case "drain":
+				sinkGain += bal[ctx[i]]
+				bal[ctx[i]] = 0
 			case "create":
 				attempts[ctx[i]]++
 				creates[ctx[i]]++
 			}
 		}
-	}
-	// contracts destroyed by a persisted self-destructing frame (only call-kind frames end that way: ctx = the frame)
-	destroyed := map[int]bool{}
-	for i, f := range p.Frames {
-		if f.End == "selfdestruct" && persisted[i] && !static[i] {
+		// a persisted self-destructing frame (only call-kind leaf frames end that way: ctx = the frame): whatever
+		// the contract still holds goes to the sink
+		if f.End == "selfdestruct" {
 			destroyed[i] = true
-			sinkGain += 1000 - pays[i] // whatever it still held goes to the sink as well
+			sinkGain += bal[i]
+			bal[i] = 0
 		}
+	}
+	for a := range bal {
+		pays[a] = 1000 - bal[a]
 	}
 	// storage
 	for i, f := range p.Frames {
@@ -444,6 +475,30 @@ func (c12) Exec(raw json.RawMessage, st *simrt.Stats, log *simrt.Log) *simrt.Vio
 				}
 				return viol(i, clause, where, "slot of frame %d in contract %d holds %x, expected %x (frame persisted=%v, static=%v, ctx=%d)", i, a, got.Bytes()[28:], want.Bytes()[28:], persisted[i], static[i], ctx[i])
 			}
+		}
+	}
+	// the shared slot of every storage context: last persisted write in execution order, else the committed value
+	for a := 0; a < nf; a++ {
+		want := common.BigToHash(big.NewInt(0x55))
+		lastKind := "untouched"
+		for _, i := range order {
+			if !persisted[i] || static[i] || ctx[i] != a {
+				continue
+			}
+			for _, e := range p.Frames[i].Effects {
+				switch e {
+				case "gset":
+					want, lastKind = common.BigToHash(big.NewInt(int64(i+1))), "set"
+				case "gclear":
+					want, lastKind = common.Hash{}, "cleared"
+				}
+			}
+		}
+		if destroyed[a] {
+			want, lastKind = common.Hash{}, "destroyed"
+		}
+		if got := post.GetState(c12Addr(a), common.BigToHash(big.NewInt(900))); got != want {
+			return viol(a, "shared-slot-wrong", "expected-"+lastKind, "shared slot of contract %d holds %x after the block, the persisted frames leave %x (%s)", a, got.Bytes()[28:], want.Bytes()[28:], lastKind)
 		}
 	}
 	// logs, in order
